@@ -6,7 +6,9 @@
   `Line::extents` runs the `ParallelsIterator` (EG.Model.ThickLine). Its `loop`s are bounded by
   explicit fuel there and report an exhausted bound as `none` ("stuck"); that `Option` is threaded
   through everything here (`Option` monad): outer `none` = a loop bound was exceeded (the driver
-  prints `stuck`, which would be a correspondence disagreement), never a made-up value.
+  prints `stuck`, which would be a correspondence disagreement), never a made-up value. That the
+  bounds are never exceeded is a theorem: `EG.Joins.extents_total` (EG/Lemmas/ExtentsTotal.lean),
+  for every line, width and stroke offset; hence `LineJoin.start / stop / fromPoints` are total.
   The geometry after the extents is pure: `LineJoin.fromExtents`.
 -/
 import EG.Model.Intersection
